@@ -189,17 +189,28 @@ def load_known():
     return {"findings": [], "fixed": []}
 
 
-def matches_finding(f, prop, ev_line):
+def _names(ev):
+    out = [ev.get("signer", ""), ev.get("prov", ""), ev.get("addr", ""), ev.get("to", "")] + list(ev.get("provs") or [])
+    return [n for n in out if n]
+
+
+PREDICATES = {
+    # D8: some address in the history is not 20 bytes long (the harness names them x+ / x-)
+    "non20_address": lambda hist: any(n.endswith("+") or n.endswith("-") for e in hist["ops"] for n in _names(e)),
+    # D11: a call with a repeated frequency of 2^64-1
+    "huge_frequency": lambda hist: any(e.get("freqhuge") for e in hist["ops"]),
+    # D9: a call naming the registered module service
+    "module_service_call": lambda hist: bool(hist["reset"].get("modsvc")) and any(
+        e.get("name") == "Call" and e.get("svc") == "msvc" for e in hist["ops"]),
+}
+
+
+def matches_finding(f, prop, hist):
+    """a recorded finding explains a violation of `prop` when the failing history has the finding's signature"""
     if prop not in f["properties"]:
         return False
-    sig = f.get("signature", {})
-    ev = ev_line["ev"]
-    for k, v in sig.items():
-        if k == "tag_prefix":
-            continue
-        if ev.get(k) != v:
-            return False
-    return True
+    pred = PREDICATES.get(f.get("signature", {}).get("predicate"))
+    return bool(pred and pred(hist))
 
 
 def run_check(prop, tier, seed):
@@ -242,7 +253,7 @@ def run_check(prop, tier, seed):
                 hist, lines = history_prefix(chunk, lineno)
                 hit = None
                 for f in known.get("findings", []):
-                    if matches_finding(f, prop, lines[-1]) and lines[0]["ev"].get("tag", "").startswith(f.get("signature", {}).get("tag_prefix", "")):
+                    if matches_finding(f, prop, hist):
                         hit = f
                 if hit:
                     known_hits.append(hit["id"])
@@ -353,10 +364,13 @@ def run_survey(tier, seed, patch=None):
             results = []
         for chunk, viol, nc, _ in results:
             res["nonconf"] += len(nc)
+            known = load_known()
             for lineno, ids in viol:
                 for p in ids:
                     if p not in res["violated"]:
                         hist, lines = history_prefix(chunk, lineno)
+                        if any(matches_finding(f, p, hist) for f in known.get("findings", [])):
+                            continue
                         res["violated"][p] = {"tag": hist["reset"].get("tag"), "event": lines[-1]["ev"]["name"],
                                               "ops": len(hist["ops"])}
         for p in ("C18", "C20"):
